@@ -401,6 +401,91 @@ pub fn run(ctx: &Ctx) {
         },
     );
     ctx.subspace("proptest connection lifetimes: handshake schedule + 4..80 rotation half-cycles with probes and losses", n as u64, false);
+
+    // node level
+    let lifes: Vec<(usize, u32, u8)> = ctx.tier.pick(
+        vec![(2, 700, 0), (2, 700, 1), (3, 500, 2), (3, 900, 0)],
+        vec![(2, 700, 0), (2, 3000, 1), (2, 1500, 2), (3, 500, 2), (3, 2000, 0), (4, 1200, 1), (5, 800, 2)],
+    );
+    ctx.par_items(&lifes, |_, (n, s, c)| {
+        let v = node_life(ctx, *n, *s, *c);
+        ctx.report(v);
+    });
+    ctx.subspace("node level: meshes of 2-5 real nodes (everybody dials everybody), broadcast traffic, 500-3000 s: global seal log", lifes.len() as u64, true);
+}
+
+/// node level: a mesh of real nodes with traffic over several rotation intervals; the seal log of the whole
+/// simulation (all nodes of this thread) must not contain a repeated (key, nonce) pair, and a key is never used
+/// with more than the two nonce halves of its two ends
+pub fn node_life(ctx: &Ctx, nodes: usize, seconds: u32, cipher: u8) -> Vec<Viol> {
+    ctx.eval();
+    let case = json!({"kind": "node-life", "nodes": nodes, "seconds": seconds, "cipher": cipher});
+    let mut out = vec![];
+    verif_seal_log_enable(true);
+    let r = catch(|| {
+        let mut sim: crate::sim::NetSim<vpncloud::payload::Frame> = crate::sim::NetSim::new();
+        for _ in 0..nodes {
+            let mut cfg = crate::sim::base_config();
+            cfg.mode = vpncloud::types::Mode::Switch;
+            cfg.auto_claim = false;
+            cfg.crypto.algorithms = vec![["aes128", "aes256", "chacha20"][cipher as usize % 3].to_string()];
+            sim.add_node(&cfg, false);
+        }
+        // everybody dials everybody: dual opens included
+        for i in 0..nodes {
+            for j in 0..nodes {
+                if i != j {
+                    let a = sim.addr(j);
+                    sim.connect(i, a);
+                }
+            }
+        }
+        sim.settle();
+        for t in 0..seconds {
+            sim.tick();
+            if t % 7 == 0 {
+                for i in 0..nodes {
+                    sim.put_payload(i, crate::sim::eth_frame([0xff; 6], [2, 0, 0, 0, 0, i as u8], None, &[t as u8; 30]));
+                }
+                sim.settle();
+                for i in 0..nodes {
+                    sim.take_iface(i);
+                }
+            }
+        }
+        sim.all_connected() && sim.panics.is_empty()
+    });
+    let log = verif_seal_log_take();
+    verif_seal_log_enable(false);
+    match r {
+        Err(p) => out.push(Viol::new(format!("node-life-{}", p.sig()), p.msg, case.clone())),
+        Ok(ok) => {
+            if !ok {
+                out.push(Viol::new("node-life-mesh", "mesh not connected or a node panicked".to_string(), case.clone()));
+            }
+            let mut seen: BTreeSet<([u8; 16], [u8; 12])> = BTreeSet::new();
+            let mut halves: BTreeMap<[u8; 16], BTreeSet<u8>> = BTreeMap::new();
+            for s in &log {
+                if !seen.insert((s.fingerprint, s.nonce)) {
+                    out.push(Viol::new(
+                        "key-nonce-pair-reused",
+                        format!("node level: key {} sealed twice with nonce {}", hex(&s.fingerprint[..4]), hex(&s.nonce)),
+                        case.clone(),
+                    ));
+                    break;
+                }
+                halves.entry(s.fingerprint).or_default().insert(s.nonce[0]);
+            }
+            if halves.values().any(|h| h.iter().any(|b| *b != 0 && *b != 0x80)) {
+                out.push(Viol::new("nonce-half-changes", "a nonce with a first byte other than 00 / 80 was used".to_string(), case.clone()));
+            }
+            ctx.class(&format!("node-life:keys>={}", (halves.len() / 10) * 10));
+            if halves.len() >= 4 {
+                ctx.nontrivial(&("node-life", nodes, seconds, cipher));
+            }
+        }
+    }
+    out
 }
 
 pub fn replay(ctx: &Ctx, case: &Value) {
@@ -420,6 +505,10 @@ pub fn replay(ctx: &Ctx, case: &Value) {
                 x.copy_from_slice(&b);
                 check_increment(ctx, x);
             }
+        }
+        Some("node-life") => {
+            let v = node_life(ctx, case["nodes"].as_u64().unwrap_or(2) as usize, case["seconds"].as_u64().unwrap_or(500) as u32, case["cipher"].as_u64().unwrap_or(0) as u8);
+            ctx.report(v);
         }
         Some("limit") => {
             let v = limit_case(ctx, case["cipher"].as_u64().unwrap_or(0) as u8, case["end"].as_u64().unwrap_or(0) as usize, case["below"].as_u64().unwrap_or(0));
